@@ -22,6 +22,15 @@ CHECKS["C16"] = dict(engine="table", technique="stateful property-based testing 
    note="Trusted: enr crate for records; Entry::insert/value_mut excluded (documented to bypass filters); pending deadlines in regimes 0 / 1h+forced. Keys are real key hashes (buckets 250..255).",
    ref="7.2 / C16")
 
+CHECKS["C09"] = dict(engine="query", technique="stateful property-based testing (event histories vs. an independent ledger; step-bounded drain as termination oracle)",
+   text="Exploration: tens of thousands of generated event histories per run against the real FindNodeQuery / PredicateQuery (explicit clock) and the real QueryPool; ledger invariants for contacted-once, parallelism bound, no dead state, absorbing finish, bounded drain, pool returns each query exactly once. Liveness is decided in its bounded-safety form.",
+   note="Assumes a transport that gives every issued request exactly one outcome (C04); the stalled mode is read via a guarded accessor; QueryPool timeouts only in regimes 0 / 1h (it reads std::time::Instant).",
+   ref="7.3 / C09")
+CHECKS["C10"] = dict(engine="query", technique="property-based testing with a ledger oracle over event histories",
+   text="Exploration: the same generated histories; the final result is checked for size, distinctness, strict distance order (harness arithmetic), every id contacted and successfully answered while outstanding, predicate provenance, and completeness when short.",
+   note="Candidate set defined as documented (first num_results of the supplied sequence + ids in accepted successes). Same transport assumption as C09.",
+   ref="7.3 / C10")
+
 NOT_YET = {}
 
 def main():
@@ -55,6 +64,7 @@ def main():
             "add_only": True,
         },
         "engines": [
+            {"name": "query", "path": "harness/src/engines/query.rs", "serves_properties": ["C09", "C10"], "kind_free_text": "proptest event histories over the real query state machines and QueryPool"},
             {"name": "table", "path": "harness/src/engines/table.rs", "serves_properties": ["C07", "C08", "C16"], "kind_free_text": "proptest op histories over the real KBucketsTable"},
         ],
         "checks": checks,
